@@ -93,7 +93,7 @@ func verifH_C13_body_readable() {
 	verifReach("end")
 }
 
-//verif:harness id=C13 tier=quick,thorough witness=end bounds="parameter defaults: query / header / cookie parameter with schema integer default 7 / 7.0 / 1000000.0 (as decoded from JSON), string default 'd', array of integers default [1,2] (style form/spaceDelimited/pipeDelimited, explode on/off), or object default {a:1,b:x} (query deepObject / form exploded or not, header simple exploded or not, cookie form not exploded); parameter absent, present with a value, or present but empty; declared on the operation, on the path item, or on the path item behind a parameter the operation overrides; SkipSettingDefaults on/off; after ValidateRequest the forwarded request carries the default exactly when it was absent and defaults are on; validating the forwarded request again succeeds and changes nothing; decoding the parameter again yields the default"
+//verif:harness id=C13 tier=quick,thorough witness=end bounds="parameter defaults: query / header / cookie parameter with schema integer default 7 / 7.0 / 1000000.0 (as decoded from JSON), string default 'd', array of integers default [1,2] (style form/spaceDelimited/pipeDelimited, explode on/off), or object default {a:1,b:x} (query deepObject / form exploded or not, header simple exploded or not, cookie form not exploded); parameter absent, present with a value, or present but empty; declared on the operation, on the path item, or on the path item behind a parameter the operation overrides; SkipSettingDefaults on/off; after ValidateRequest the forwarded request carries the default exactly when it was absent and defaults are on; validating the forwarded request again (with a fresh input struct or the same one) succeeds and changes nothing; decoding the parameter again yields the default"
 func verifH_C13_param_defaults() {
 	verifMapOrder() // map iteration order is unspecified: ascending and descending key order
 	in := []string{"query", "header", "cookie"}[verifChoose("in", 3)]
@@ -215,7 +215,10 @@ func verifH_C13_param_defaults() {
 	opts := &Options{SkipSettingDefaults: skip}
 	route := &routers.Route{Spec: &openapi3.T{}, PathItem: pathItem, Operation: op, Method: "GET"}
 	rawBefore, hdrBefore, cookiesBefore := req.URL.RawQuery, len(req.Header["P"]), len(req.Header["Cookie"])
-	err := ValidateRequest(context.Background(), &RequestValidationInput{Request: req, Route: route, Options: opts})
+	// the second validation uses a fresh input struct, or the very same one (which caches its view of the query)
+	sameInput := verifChoose("sameInput", 2) == 1
+	first := &RequestValidationInput{Request: req, Route: route, Options: opts}
+	err := ValidateRequest(context.Background(), first)
 	if presence == 2 {
 		// present but empty: whatever the verdict, validating again must not keep changing the request
 		raw1, hdr1, ck1 := req.URL.RawQuery, strings.Join(req.Header["P"], "|"), strings.Join(req.Header["Cookie"], "|")
@@ -239,7 +242,11 @@ func verifH_C13_param_defaults() {
 	verifAssert(verifSameJSON(got, wantDecoded), "C13 parameter defaults: the forwarded parameter decodes to the default value")
 	// second validation: succeeds and changes nothing
 	raw2, hdr2, ck2 := req.URL.RawQuery, len(req.Header["P"]), len(req.Header["Cookie"])
-	err2 := ValidateRequest(context.Background(), &RequestValidationInput{Request: req, Route: route, Options: opts})
+	second := &RequestValidationInput{Request: req, Route: route, Options: opts}
+	if sameInput {
+		second = first
+	}
+	err2 := ValidateRequest(context.Background(), second)
 	verifAssert(err2 == nil && req.URL.RawQuery == raw2 && len(req.Header["P"]) == hdr2 && len(req.Header["Cookie"]) == ck2, "C13 parameter defaults: the forwarded request validates again and a second validation changes nothing")
 	verifReach("end")
 }
